@@ -201,7 +201,7 @@ class Checker(object):
           nblocks += 1; ok_blocks += 1
         elif b.startswith("Axioms:"):
           nblocks += 1
-          axs = re.findall(r"^([A-Za-z_][A-Za-z0-9_.']*)\s*:", b, re.M)
+          axs = [a for a in re.findall(r"^([A-Za-z_][A-Za-z0-9_.']*)\s*:", b, re.M) if a != "Axioms"]
           good = True
           for a in axs:
             self.axioms_seen.add(a)
@@ -489,20 +489,28 @@ def main(argv=None):
 
 
 def setup_all():
-  """MANIFEST.setup_cmd: run the translators, then a full .vo build of every file."""
+  """MANIFEST.setup_cmd: run the translators, then a full .vo build of Base and of every property
+  that has a harness module (directories still under construction are built by their own check)."""
   setup_impl_path()
   sys.path.insert(0, os.path.join(ROOT, "harness"))
+  dirs = ["Base"]
   for p in sorted(glob.glob(os.path.join(ROOT, "harness", "C[0-9][0-9].py"))):
     try:
       mod = importlib.import_module(os.path.basename(p)[:-3])
       if hasattr(mod, "pregen"):
         mod.pregen(None)
+      dirs.append(getattr(mod, "COQ_DIR", mod.PID))
+      dirs += list(getattr(mod, "EXTRA_COQ_DIRS", []))
     except Exception:
       traceback.print_exc()
   ensure_makefile()
+  targets = []
+  for d in sorted(set(dirs)):
+    for f in sorted(glob.glob(os.path.join(COQ, "theories", d, "*.v"))):
+      targets.append(os.path.relpath(f, COQ) + "o")
   with open(os.path.join(COQ, ".build.lock"), "w") as lk:
     fcntl.flock(lk, fcntl.LOCK_EX)
-    rc, out, dt = sh("timeout 3000 make -k -j%d" % NPROC, 3100, cwd=COQ)
+    rc, out, dt = sh("timeout 3000 make -k -j%d %s" % (NPROC, " ".join(targets)), 3100, cwd=COQ)
   print(out[-3000:])
-  print("setup: make rc=%d in %.0fs" % (rc, dt))
+  print("setup: make rc=%d in %.0fs (%d files)" % (rc, dt, len(targets)))
   return 0 if rc == 0 else 1
